@@ -46,6 +46,8 @@ type CutSpec struct {
 	Havoc  []string
 	Clause *Clause
 	used   bool
+	SplitVar string
+	SplitLo, SplitHi int
 }
 
 type AssertSpec struct {
@@ -77,11 +79,13 @@ type Contract struct {
 	Uses      []string // axiom families to instantiate
 	Assigns   []string
 	Cuts      []*CutSpec
+	Mentions  []*Clause
 }
 
 type SplitSpec struct {
 	Var    string // local variable name
 	Lo, Hi int
+	Open   bool // additionally the two open-ended cases < Lo and > Hi (then no range obligation is needed)
 }
 
 type Lemma struct {
@@ -101,7 +105,7 @@ type ContractFile struct {
 	Lemmas []*Lemma
 }
 
-var kwRe = regexp.MustCompile(`^(cut|func|lemma|mode|returns|logical|requires|ensures|loop|call|waive|panics|props|trusted|assert|assume|split|nosafety|forall|hyp|holds|export|uses|assigns)\b`)
+var kwRe = regexp.MustCompile(`^(mention|cut|func|lemma|mode|returns|logical|requires|ensures|loop|call|waive|panics|props|trusted|assert|assume|split|nosafety|forall|hyp|holds|export|uses|assigns)\b`)
 
 func parseContractFile(path string) (*ContractFile, error) {
 	f, err := os.Open(path)
@@ -333,7 +337,16 @@ func parseContractFile(path string) (*ContractFile, error) {
 			if m[3] != "" {
 				ord, _ = strconv.Atoi(m[3])
 			}
-			c, err := mkClause(m[5], it.line)
+			body := m[5]
+			var spVar string
+			var spLo, spHi int
+			if sm := regexp.MustCompile(`^split\s+([A-Za-z_][A-Za-z0-9_]*)\s+in\s+(-?\d+)\s*\.\.\s*(-?\d+)\s*:\s*(.*)$`).FindStringSubmatch(body); sm != nil {
+				spVar = sm[1]
+				spLo, _ = strconv.Atoi(sm[2])
+				spHi, _ = strconv.Atoi(sm[3])
+				body = sm[4]
+			}
+			c, err := mkClause(body, it.line)
 			if err != nil {
 				return nil, err
 			}
@@ -343,15 +356,21 @@ func parseContractFile(path string) (*ContractFile, error) {
 					hv = append(hv, h)
 				}
 			}
-			cur.Cuts = append(cur.Cuts, &CutSpec{Text: m[1], Ord: ord, Havoc: hv, Clause: c})
+			cur.Cuts = append(cur.Cuts, &CutSpec{Text: m[1], Ord: ord, Havoc: hv, Clause: c, SplitVar: spVar, SplitLo: spLo, SplitHi: spHi})
+		case "mention":
+			c, err := mkClause(rest, it.line)
+			if err != nil {
+				return nil, err
+			}
+			cur.Mentions = append(cur.Mentions, c)
 		case "split":
-			m := regexp.MustCompile(`^([A-Za-z_][A-Za-z0-9_]*)\s+in\s+(-?\d+)\s*\.\.\s*(-?\d+)$`).FindStringSubmatch(rest)
+			m := regexp.MustCompile(`^([A-Za-z_][A-Za-z0-9_]*)\s+in\s+(-?\d+)\s*\.\.\s*(-?\d+)(\s+open)?$`).FindStringSubmatch(rest)
 			if m == nil {
 				return nil, fail("bad split clause")
 			}
 			lo, _ := strconv.Atoi(m[2])
 			hi, _ := strconv.Atoi(m[3])
-			cur.Split = &SplitSpec{Var: m[1], Lo: lo, Hi: hi}
+			cur.Split = &SplitSpec{Var: m[1], Lo: lo, Hi: hi, Open: m[4] != ""}
 		default:
 			return nil, fail("clause %s not allowed here", kw)
 		}
